@@ -46,10 +46,32 @@ pub struct Case {
     pub peer: &'static str,
     /// extra header set: "" or a name from HEADER_SETS
     pub headers: &'static str,
+    /// pool configuration: "" (default, one request) or a name from POOL_CFGS (then three requests in a row go through
+    /// the same service, so that the idle list is consulted with entries in it)
+    pub pool_cfg: &'static str,
+}
+
+pub const POOL_CFGS: [&str; 6] = ["idle-timeout-max", "idle-timeout-zero", "idle-timeout-1ns", "idle-timeout-none", "max-idle-0", "max-idle-max"];
+
+fn pool_cfg_of(name: &str) -> hyperdriver::client::PoolConfig {
+    let mut p = hyperdriver::client::PoolConfig::default();
+    match name {
+        "idle-timeout-max" => p.idle_timeout = Some(Duration::MAX),
+        "idle-timeout-zero" => p.idle_timeout = Some(Duration::ZERO),
+        "idle-timeout-1ns" => p.idle_timeout = Some(Duration::from_nanos(1)),
+        "idle-timeout-none" => p.idle_timeout = None,
+        "max-idle-0" => p.max_idle_per_host = 0,
+        "max-idle-max" => p.max_idle_per_host = usize::MAX,
+        _ => {}
+    }
+    p
 }
 
 /// header sets: well-typed `HeaderValue`s need not be visible ASCII
-pub const HEADER_SETS: [(&str, &[(&str, &[u8])]); 7] = [
+pub const HEADER_SETS: [(&str, &[(&str, &[u8])]); 10] = [
+    ("connection-repeated-bad-first", &[("connection", b"\xfa"), ("connection", b"keep-alive")]),
+    ("connection-repeated-good-first", &[("connection", b"keep-alive"), ("connection", b"\xfa"), ("connection", b"close")]),
+    ("te-repeated", &[("te", b"trailers"), ("te", b"\xfa"), ("connection", b"te")]),
     ("connection-non-ascii", &[("connection", b"\xff")]),
     ("connection-latin1-list", &[("connection", b"keep-alive, ferm\xe9"), ("keep-alive", b"timeout=5")]),
     ("te-non-ascii", &[("te", b"\xfftrailers")]),
@@ -61,7 +83,7 @@ pub const HEADER_SETS: [(&str, &[(&str, &[u8])]); 7] = [
 
 impl Case {
     fn to_json(&self) -> Value {
-        json!({"engine": "panics", "version": self.version, "method": self.method, "uri": self.uri, "via": self.path, "tls": self.tls, "peer": self.peer, "headers": self.headers})
+        json!({"engine": "panics", "version": self.version, "method": self.method, "uri": self.uri, "via": self.path, "tls": self.tls, "peer": self.peer, "headers": self.headers, "pool_cfg": self.pool_cfg})
     }
 }
 
@@ -150,7 +172,7 @@ pub fn gen_cases(thorough: bool) -> Vec<Case> {
                             let k = i + mi + vi + pi + version as usize;
                             let keep = thorough || (peer == "echo" && !tls && (uc != &"absolute" || k % 3 == 0)) || k % 17 == 0 || (*hc == "bracketed-non-ip" && peer == "echo" && k % 2 == 0);
                             if keep {
-                                v.push(Case { version, method, uri: uri.clone(), uri_class: uc, host_class: hc, path: via, tls, peer, headers: "" });
+                                v.push(Case { version, method, uri: uri.clone(), uri_class: uc, host_class: hc, path: via, tls, peer, headers: "", pool_cfg: "" });
                             }
                         }
                     }
@@ -168,8 +190,21 @@ pub fn gen_cases(thorough: bool) -> Vec<Case> {
                             if !thorough && (tls != uri.starts_with("https") || method == "CONNECT" && version != 2) {
                                 continue;
                             }
-                            v.push(Case { version, method, uri: uri.to_string(), uri_class: "absolute", host_class: "dns", path: via, tls, peer: "echo", headers: name });
+                            v.push(Case { version, method, uri: uri.to_string(), uri_class: "absolute", host_class: "dns", path: via, tls, peer: "echo", headers: name, pool_cfg: "" });
                         }
+                    }
+                }
+            }
+        }
+    }
+    // pool configurations at the edges of their domains: three requests in a row through one pooled service
+    for pc in POOL_CFGS {
+        for uri in ["http://example.com/a/b?x=1", "https://example.com/"] {
+            for version in [11u8, 2] {
+                for via in ["client-pool", "bare-pool-service"] {
+                    for peer in ["echo", "close"] {
+                        let tls = uri.starts_with("https");
+                        v.push(Case { version, method: "GET", uri: uri.to_string(), uri_class: "absolute", host_class: "dns", path: via, tls, peer, headers: "", pool_cfg: pc });
                     }
                 }
             }
@@ -235,7 +270,10 @@ pub async fn run_case(c: &Case) -> (String, Vec<String>) {
         Ok(u) => u,
         Err(_) => return ("uri-rejected-by-http-crate".into(), vec![]),
     };
-    let req = {
+    let c_req = c.clone();
+    let mk_req = move || {
+        let c = &c_req;
+        let uri = uri.clone();
         let mut r = http::Request::new(ChunkBody::new(pattern(9, if c.method == "POST" { 50 } else { 0 }), 0, 0));
         *r.method_mut() = http::Method::from_bytes(c.method.as_bytes()).unwrap();
         *r.uri_mut() = uri;
@@ -250,26 +288,39 @@ pub async fn run_case(c: &Case) -> (String, Vec<String>) {
         }
         r
     };
+    let req = mk_req();
+    let repeat = if c.pool_cfg.is_empty() { 1 } else { 3 };
+    let pool_cfg = pool_cfg_of(c.pool_cfg);
     let tls_cfg = if c.tls { Some(client_tls(&["h2", "http/1.1"])) } else { None };
     let via = c.path;
     let fut = async move {
         let out: Result<http::StatusCode, String> = match via {
             "client-pool" | "client-nopool" => {
                 let b = hyperdriver::Client::builder().with_transport(transport).with_protocol(HttpConnectionBuilder::<ChunkBody>::default()).with_body::<ChunkBody, Body>().with_timeout(Duration::from_secs(5));
-                let b = if via == "client-pool" { b.with_default_pool() } else { b.without_pool() };
+                let b = if via == "client-pool" { b.with_pool(pool_cfg.clone()) } else { b.without_pool() };
                 let b = match tls_cfg {
                     Some(t) => b.with_tls(t),
                     None => b.without_tls(),
                 };
                 let svc = b.build_service();
-                match svc.oneshot(req).await {
-                    Ok(resp) => {
-                        let st = resp.status();
-                        let _ = resp.into_body().collect().await;
-                        Ok(st)
+                let mut last = Err("no request sent".to_string());
+                let mut first = Some(req);
+                for _ in 0..repeat {
+                    let req = first.take().unwrap_or_else(&mk_req);
+                    last = match svc.clone().oneshot(req).await {
+                        Ok(resp) => {
+                            let st = resp.status();
+                            let _ = resp.into_body().collect().await;
+                            Ok(st)
+                        }
+                        Err(e) => Err(format!("{e:?}")),
+                    };
+                    // let the connection find its way back into the pool
+                    for _ in 0..10 {
+                        tokio::task::yield_now().await;
                     }
-                    Err(e) => Err(format!("{e:?}")),
                 }
+                last
             }
             "connector-bare-tcp" | "bare-pool-service-tcp" => {
                 // the real TCP transport (host/port extraction, resolver, happy eyeballs) against loopback
@@ -299,16 +350,25 @@ pub async fn run_case(c: &Case) -> (String, Vec<String>) {
             }
             "bare-pool-service" => {
                 let t = transport.with_optional_tls(tls_cfg.map(Arc::new));
-                let svc = hyperdriver::client::ConnectionPoolService::<_, _, _, ChunkBody>::new(t, HttpConnectionBuilder::<ChunkBody>::default(), RequestExecutor::new(), hyperdriver::client::PoolConfig::default());
-                match tokio::time::timeout(Duration::from_secs(5), svc.oneshot(req)).await {
-                    Err(_) => Err("timeout".into()),
-                    Ok(Ok(resp)) => {
-                        let st = resp.status();
-                        let _ = tokio::time::timeout(Duration::from_secs(5), resp.into_body().collect()).await;
-                        Ok(st)
+                let svc = hyperdriver::client::ConnectionPoolService::<_, _, _, ChunkBody>::new(t, HttpConnectionBuilder::<ChunkBody>::default(), RequestExecutor::new(), pool_cfg.clone());
+                let mut last = Err("no request sent".to_string());
+                let mut first = Some(req);
+                for _ in 0..repeat {
+                    let req = first.take().unwrap_or_else(&mk_req);
+                    last = match tokio::time::timeout(Duration::from_secs(5), svc.clone().oneshot(req)).await {
+                        Err(_) => Err("timeout".into()),
+                        Ok(Ok(resp)) => {
+                            let st = resp.status();
+                            let _ = tokio::time::timeout(Duration::from_secs(5), resp.into_body().collect()).await;
+                            Ok(st)
+                        }
+                        Ok(Err(e)) => Err(format!("{e:?}")),
+                    };
+                    for _ in 0..10 {
+                        tokio::task::yield_now().await;
                     }
-                    Ok(Err(e)) => Err(format!("{e:?}")),
                 }
+                last
             }
             _ => {
                 let t = transport.with_optional_tls(tls_cfg.map(Arc::new));
@@ -385,6 +445,9 @@ pub fn run(args: &Args) -> Report {
         p.count(&format!("profile_{profile}"), 1);
         if !c.headers.is_empty() {
             p.count("cases_with_non_ascii_header_values", 1);
+        }
+        if !c.pool_cfg.is_empty() {
+            p.count("cases_with_edge_pool_configuration", 1);
         }
         if res == "hang" {
             p.violation(format!("request-never-resolves:{}:{}", c.path, c.peer), format!("{} | case {}", res, c.to_json()), c.to_json());
